@@ -498,7 +498,15 @@ def resolve(world, op):
                 vols = quantize(min(v, float(op.get("cap", 1e18))), g)
             else:
                 vols = vols[0]
-        return {"op": kind, "lw": i, "wells": wells, "pos": list(spec.get("pos", [10, 1])), "tips": tips, "vols": vols, "lc": op.get("lc", "Water"), "arm": op.get("arm", 0), "label": op.get("label"), "vols_container": op.get("vols_container", "list")}
+        if (op["col"] + len(op["rows"])) % 2 == 1 and len(wells) >= 2:
+            # the same call with wells, tips and per-tip volumes listed from the bottom up (pairs stay together)
+            wells, tips = wells[::-1], tips[::-1]
+            if isinstance(vols, list):
+                vols = vols[::-1]
+        conc = {"op": kind, "lw": i, "wells": wells, "pos": list(spec.get("pos", [10, 1])), "tips": tips, "vols": vols, "lc": op.get("lc", "Water"), "arm": op.get("arm", 0), "label": op.get("label"), "vols_container": op.get("vols_container", "list")}
+        if op.get("comps") and kind == "evo_dispense":
+            conc["comps"] = op["comps"]
+        return conc
     return dict(op)
 
 
@@ -661,7 +669,8 @@ def execute(world, conc):
                 vols_ = tuple(vols_)
             elif isinstance(vols_, list) and conc.get("vols_container") == "ndarray":
                 vols_ = np.array(vols_, dtype=float)
-            getattr(wl, kind)(labs[conc["lw"]], list(conc["wells"]), tuple(conc["pos"]), list(conc["tips"]), vols_, conc["lc"], arm=conc.get("arm", 0), label=conc.get("label"))
+            extra = {"compositions": _comps_arg(world, conc)} if (conc.get("comps") and kind == "evo_dispense") else {}
+            getattr(wl, kind)(labs[conc["lw"]], list(conc["wells"]), tuple(conc["pos"]), list(conc["tips"]), vols_, conc["lc"], arm=conc.get("arm", 0), label=conc.get("label"), **extra)
         elif kind == "comment":
             wl.comment(conc["text"])
         elif kind == "wash":
@@ -703,7 +712,7 @@ def model_apply(world, conc):
     elif kind in ("add", "dispense", "evo_dispense"):
         for j, (i, idx, dv, _) in enumerate(flat_pairs(world, conc)):
             amounts = None
-            if conc.get("comps") and kind != "evo_dispense" and not isinstance(conc["comps"], str):
+            if conc.get("comps") and not isinstance(conc["comps"], str):
                 amounts = {k: f * Fraction(dv) for k, f in known_comp(None, conc["comps"] + j).items()}
             M[i].add(idx, Fraction(dv), amounts)
     elif kind == "transfer":
